@@ -392,11 +392,15 @@ pub fn run(ctx: &Ctx) -> (Acc, Report) {
             }
         }
     });
+    // "an operation addressed to one bucket never touches another bucket's objects" under concurrency: all interleavings (at
+    // file-system-call granularity, controlled scheduler of C19) of two writers to different objects - the same key in two
+    // buckets, the same file name in two directories, two keys - after which each object must hold its own writer's bytes
+    let concurrent = if ctx.replay.as_deref().is_none_or(|r| r.contains("/schedule=")) { crate::props::c19::cross_object_schedules(&mut acc, "C17") } else { 0 };
     let rep = Report {
         level: "exploration",
-        rule: format!("{n_keys} hostile strings (all sequences of 1..3 segments over {{a, ., .., empty, bucket-b, bucket-a2, secret, the real metadata file name of another bucket's object, %2e%2e, %2f, outside, sentinel.txt}} joined by '/', with and without a leading '/', plus 4 deep escapes) x 18 operations at the S3 trait (object get/head/put/delete/delete-objects/copy source/copy destination/list prefix/create-multipart/upload-part-copy source/put-then-get-then-delete; hostile upload ids for list-parts/complete/abort/upload-part by a foreign identity incl. the victim's real id and its 8-character prefix; hostile bucket names for create/delete/head bucket), and through S3Service::call for GET/PUT/DELETE/copy in literal, fully percent-encoded and %2e%2e spellings; store: three buckets with marked objects and metadata (one sibling's name has the addressed bucket's name as a proper string prefix), one foreign open upload with a marked part, a marked sentinel tree beside and above the root. Oracle: whole-tree snapshot diff + marker search in everything read back. Distinct by id."),
+        rule: format!("{n_keys} hostile strings (all sequences of 1..3 segments over {{a, ., .., empty, bucket-b, bucket-a2, secret, the real metadata file name of another bucket's object, %2e%2e, %2f, outside, sentinel.txt}} joined by '/', with and without a leading '/', plus 4 deep escapes) x 18 operations at the S3 trait (object get/head/put/delete/delete-objects/copy source/copy destination/list prefix/create-multipart/upload-part-copy source/put-then-get-then-delete; hostile upload ids for list-parts/complete/abort/upload-part by a foreign identity incl. the victim's real id and its 8-character prefix; hostile bucket names for create/delete/head bucket), and through S3Service::call for GET/PUT/DELETE/copy in literal, fully percent-encoded and %2e%2e spellings; store: three buckets with marked objects and metadata (one sibling's name has the addressed bucket's name as a proper string prefix), one foreign open upload with a marked part, a marked sentinel tree beside and above the root. Oracle: whole-tree snapshot diff + marker search in everything read back. Plus every interleaving of two concurrent writers to different objects (same key in two buckets, same file name in two directories, two keys of one bucket). Distinct by id."),
         exhaustive: true,
-        extra: json!({"hostile_strings": n_keys}),
+        extra: json!({"hostile_strings": n_keys, "concurrent_writer_schedules": concurrent}),
         assumptions: vec!["symbolic links inside the root are not part of the space".into(), "file contents, not mtimes, are compared".into()],
     };
     (acc, rep)
